@@ -20,6 +20,7 @@ inductive Ev
   | sanitizer (what : String)       -- ASan / UBSan report of a memory-safety violation
   | crash (what : String)           -- the driver process died
   | malformed (line : String)
+  | reent (tests bad : Nat) (first : String)   -- re-entrant callback program: results compared with LPC references
   deriving Repr, DecidableEq
 
 structure Violation where
@@ -56,6 +57,8 @@ def judgeEv (cmds : List String) : Nat → List Ev → List Violation
   | k, .sanitizer w :: rest => ⟨"sanitizer", w, cmdAt cmds k⟩ :: judgeEv cmds k rest
   | k, .crash w :: rest => ⟨"crash", w, cmdAt cmds k⟩ :: judgeEv cmds k rest
   | k, .malformed l :: rest => ⟨"malformed-trace", l, cmdAt cmds k⟩ :: judgeEv cmds k rest
+  | k, .reent t b f :: rest =>
+    (if b > 0 then [⟨"reentrant-callback-mismatch", s!"bad={b}/{t} first={f}", cmdAt cmds k⟩] else []) ++ judgeEv cmds k rest
   | k, _ :: rest => judgeEv cmds k rest
 
 def Violation.render (v : Violation) : String :=
@@ -64,6 +67,7 @@ def Violation.render (v : Violation) : String :=
 /-- a trace without forbidden events has no violations -/
 def clean : Ev → Bool
   | .ub _ | .sanitizer _ | .crash _ | .malformed _ => false
+  | .reent _ b _ => b == 0
   | .result t => !(t = "r !noops" || t = "r !nofn" || t = "r !build")
   | _ => true
 
